@@ -781,4 +781,614 @@ theorem member_distinct (nn : Nat) (s : State) (hu : U nn s) (hd : DistinctIn s.
   exact List.Nodup.sublist (List.Sublist.map _ List.filter_sublist) hnd
 
 end EnsL
+
+/-! ## switch with arbitrary members -/
+
+theorem Sw.step_ms_irrel (ms ms' : List (Val → List Val)) (sel : Val → Nat) (c : Sw.State) (a : Sw.Act)
+    (hl : ms.length = ms'.length) (ha : ∀ k y, a ≠ .memberOut k y) :
+    Sw.step ms sel c a = Sw.step ms' sel c a := by
+  cases a with
+  | arrive m => rfl
+  | enq => simp only [Sw.step, hl]
+  | memberOut k y => exact absurd rfl (ha k y)
+  | emit k => rfl
+  | deliver => rfl
+
+theorem Sw.step_memberOut_eq (ms : List (Val → List Val)) (nn : Nat) (sel : Val → Nat) (c : Sw.State)
+    (k i u : Nat) (x y : Val) (hk : c.pend[k]? = some (i, (u, x))) (hi : i < nn)
+    (hy : y ∈ (ms.getD i (fun _ => [])) x) :
+    Sw.step ms sel c (.memberOut k y) = Sw.step (anyMs nn y) sel c (.memberOut k y) := by
+  simp only [Sw.step, hk, hy, if_true, anyMs_getD nn i y hi, List.mem_singleton]
+
+theorem Sw.frame_arrive {ms : List (Val → List Val)} {sel : Val → Nat} {c c' : Sw.State} {m : Msg}
+    (h : Sw.step ms sel c (.arrive m) = some c') :
+    c'.recv = c.recv ∧ c'.qin = c.qin ++ [m] ∧ c'.pend = c.pend ∧ c'.sentG = c.sentG := by
+  simp [Sw.step] at h; subst h; exact ⟨rfl, rfl, rfl, rfl⟩
+
+theorem Sw.frame_enq {ms : List (Val → List Val)} {sel : Val → Nat} {c c' : Sw.State}
+    (h : Sw.step ms sel c .enq = some c') :
+    ∃ u x rest, c.qin = (u, x) :: rest ∧ c'.qin = rest ∧ c'.recv = c.recv ++ [(u, x)] ∧
+      c'.sentG = c.sentG ∧ (x.isExc = false → sel x < ms.length) ∧
+      c'.pend = c.pend ++ (if x.isExc then [] else [(sel x, (u, x))]) := by
+  simp only [Sw.step] at h
+  split at h
+  · rename_i u x rest hq
+    refine ⟨u, x, rest, hq, ?_⟩
+    split at h
+    · rename_i hx; simp at h; subst h; simp [hx]
+    · rename_i hx
+      split at h
+      · rename_i hlt; simp at h; subst h; simp [hx, hlt]
+      · simp at h
+  · simp at h
+
+theorem Sw.frame_memberOut {ms : List (Val → List Val)} {sel : Val → Nat} {c c' : Sw.State} {k : Nat} {y : Val}
+    (h : Sw.step ms sel c (.memberOut k y) = some c') :
+    ∃ i u x, c.pend[k]? = some (i, (u, x)) ∧ c'.pend = c.pend.eraseIdx k ∧
+      c'.recv = c.recv ∧ c'.qin = c.qin ∧ c'.sentG = c.sentG ++ [(u, x, y)] := by
+  simp only [Sw.step] at h
+  split at h
+  · rename_i i u x hk
+    split at h
+    · simp at h; subst h; exact ⟨i, u, x, hk, rfl, rfl, rfl, rfl⟩
+    · simp at h
+  · simp at h
+
+theorem Sw.frame_emit {ms : List (Val → List Val)} {sel : Val → Nat} {c c' : Sw.State} {k : Nat}
+    (h : Sw.step ms sel c (.emit k) = some c') :
+    ∃ t, c.emitq[k]? = some t ∧ c'.sentG = c.sentG ++ [t] ∧
+      c'.recv = c.recv ∧ c'.qin = c.qin ∧ c'.pend = c.pend := by
+  simp only [Sw.step] at h
+  split at h
+  · rename_i t ht; simp at h; subst h; exact ⟨t, ht, rfl, rfl, rfl, rfl⟩
+  · simp at h
+
+theorem Sw.frame_deliver {ms : List (Val → List Val)} {sel : Val → Nat} {c c' : Sw.State}
+    (h : Sw.step ms sel c .deliver = some c') :
+    c'.recv = c.recv ∧ c'.qin = c.qin ∧ c'.pend = c.pend ∧ c'.sentG = c.sentG := by
+  simp only [Sw.step] at h
+  split at h
+  · simp at h; subst h; exact ⟨rfl, rfl, rfl, rfl⟩
+  · simp at h
+
+namespace SwL
+
+def trDelta (s : State) : Act → List Ev
+  | .node (.arrive m) => [.inp m]
+  | .node (.memberOut k y) => match s.core.pend[k]? with
+    | some (_, (u, _)) => [.out (u, y)]
+    | .none => []
+  | .node (.emit k) => match s.core.emitq[k]? with
+    | some t => [.out (gmsg t)]
+    | .none => []
+  | .junk _ m => [.out m]
+  | _ => []
+
+def mtrDelta (sel : Val → Nat) (s : State) : Act → List (Nat × Ev)
+  | .node .enq => match s.core.qin with
+    | (u, x) :: _ => if x.isExc then [] else [(sel x, Ev.inp (u, x))]
+    | [] => []
+  | .node (.memberOut k y) => match s.core.pend[k]? with
+    | some (i, (u, _)) => [(i, .out (u, y))]
+    | .none => []
+  | .junk i m => [(i, .out m)]
+  | _ => []
+
+theorem step_spec (nn : Nat) (sel : Val → Nat) (s s' : State) (a : Act) (h : step nn sel s a = some s') :
+    s'.tr = s.tr ++ trDelta s a ∧ s'.mtr = s.mtr ++ mtrDelta sel s a ∧
+    match a with
+    | .node (.memberOut k y) => Sw.step (anyMs nn y) sel s.core (.memberOut k y) = some s'.core
+    | .node a' => Sw.step (anyMs nn .nil) sel s.core a' = some s'.core
+    | .junk i m => i < nn ∧ (∀ p ∈ s.core.pend, ¬ (p.1 = i ∧ p.2.1 = m.1)) ∧
+        s'.core = { s.core with qout := s.core.qout ++ [m] } := by
+  cases a with
+  | junk i m =>
+    simp only [step] at h
+    split at h
+    · rename_i hg
+      simp at h; subst h
+      refine ⟨by simp [trDelta], by simp [mtrDelta], hg.1, ?_, rfl⟩
+      intro p hp
+      have := (List.all_eq_true.mp hg.2) p hp
+      intro hc
+      simp [hc.1, hc.2] at this
+    · simp at h
+  | node a' =>
+    cases a' with
+    | arrive m =>
+      simp only [step, Option.map_eq_some_iff] at h
+      obtain ⟨c, hc, rfl⟩ := h
+      exact ⟨by simp [trDelta], by simp [mtrDelta], hc⟩
+    | enq =>
+      simp only [step] at h
+      split at h
+      · rename_i u x rest hq
+        simp only [Option.map_eq_some_iff] at h
+        obtain ⟨c, hc, rfl⟩ := h
+        exact ⟨by simp [trDelta], by simp [mtrDelta, hq], hc⟩
+      · simp at h
+    | memberOut k y =>
+      simp only [step] at h
+      split at h
+      · rename_i i u x hk
+        simp only [Option.map_eq_some_iff] at h
+        obtain ⟨c, hc, rfl⟩ := h
+        exact ⟨by simp [trDelta, hk], by simp [mtrDelta, hk], hc⟩
+      · simp at h
+    | emit k =>
+      simp only [step] at h
+      split at h
+      · rename_i t ht
+        simp only [Option.map_eq_some_iff] at h
+        obtain ⟨c, hc, rfl⟩ := h
+        exact ⟨by simp [trDelta, ht], by simp [mtrDelta], hc⟩
+      · simp at h
+    | deliver =>
+      simp only [step, Option.map_eq_some_iff] at h
+      obtain ⟨c, hc, rfl⟩ := h
+      exact ⟨by simp [trDelta], by simp [mtrDelta], hc⟩
+
+structure U (nn : Nat) (sel : Val → Nat) (s : State) : Prop where
+  b0 : s.tr.filterMap Ev.inpOf = s.core.recv ++ s.core.qin
+  lt : ∀ e ∈ s.mtr, e.1 < nn
+  pl : ∀ p ∈ s.core.pend, p.1 < nn
+  inps : ∀ i, i < nn →
+    (proj i s.mtr).filterMap Ev.inpOf = s.core.recv.filter (fun m => !m.2.isExc && decide (sel m.2 = i))
+
+theorem u_init (nn : Nat) (sel : Val → Nat) : U nn sel init := by
+  constructor <;> simp [init, Sw.init, proj]
+
+theorem u_step (nn : Nat) (sel : Val → Nat) (s s' : State) (a : Act) (h : U nn sel s)
+    (hs : step nn sel s a = some s') : U nn sel s' := by
+  obtain ⟨htr, hmtr, hcore⟩ := step_spec nn sel s s' a hs
+  obtain ⟨b0, lt, pl, inps⟩ := h
+  cases a with
+  | junk i m =>
+    obtain ⟨hi, _, hc⟩ := hcore
+    refine ⟨?_, ?_, ?_, ?_⟩
+    · rw [htr, hc, List.filterMap_append, b0]; simp [trDelta, Ev.inpOf]
+    · intro e he; rw [hmtr] at he
+      simp only [mtrDelta, List.mem_append, List.mem_singleton] at he
+      rcases he with he | he
+      · exact lt e he
+      · subst he; exact hi
+    · rw [hc]; exact pl
+    · intro j hj
+      rw [hmtr, proj_append, List.filterMap_append, inps j hj, hc]
+      by_cases hji : i = j
+      · subst hji; simp [mtrDelta, proj_single_same, Ev.inpOf]
+      · simp [mtrDelta, proj_single_ne j i _ hji]
+  | node a' =>
+    cases a' with
+    | arrive m =>
+      obtain ⟨f1, f2, f3, _⟩ := Sw.frame_arrive hcore
+      refine ⟨?_, ?_, ?_, ?_⟩
+      · rw [htr, List.filterMap_append, b0, f1, f2]; simp [trDelta, Ev.inpOf]
+      · rw [hmtr]; simpa [mtrDelta] using lt
+      · rw [f3]; exact pl
+      · intro j hj; rw [hmtr, f1]; simpa [mtrDelta] using inps j hj
+    | enq =>
+      obtain ⟨u, x, rest, hq, f1, f2, _, f5, f4⟩ := Sw.frame_enq hcore
+      rw [anyMs_length] at f5
+      refine ⟨?_, ?_, ?_, ?_⟩
+      · rw [htr, f1, f2]; simp [trDelta, b0, hq]
+      · intro e he; rw [hmtr] at he
+        simp only [mtrDelta, hq, List.mem_append] at he
+        rcases he with he | he
+        · exact lt e he
+        · by_cases hx : x.isExc = true
+          · simp [hx] at he
+          · rw [if_neg hx] at he; simp at he; subst he; exact f5 (by simpa using hx)
+      · intro p hp; rw [f4] at hp
+        simp only [List.mem_append] at hp
+        rcases hp with hp | hp
+        · exact pl p hp
+        · by_cases hx : x.isExc = true
+          · simp [hx] at hp
+          · rw [if_neg hx] at hp; simp at hp; subst hp; exact f5 (by simpa using hx)
+      · intro j hj
+        rw [hmtr, proj_append, List.filterMap_append, inps j hj, f2, List.filter_append]
+        simp only [mtrDelta, hq]
+        by_cases hx : x.isExc = true
+        · simp [hx, proj]
+        · have hx' : x.isExc = false := by simpa using hx
+          by_cases hsj : sel x = j
+          · subst hsj; simp [hx', proj_single_same, Ev.inpOf]
+          · simp [hx', hsj, proj_single_ne j (sel x) _ hsj]
+    | memberOut k y =>
+      obtain ⟨i, u, x, hk, f1, f2, f3, _⟩ := Sw.frame_memberOut hcore
+      have hi := pl _ (List.mem_of_getElem? hk)
+      refine ⟨?_, ?_, ?_, ?_⟩
+      · rw [htr, List.filterMap_append, b0, f2, f3]; simp [trDelta, hk, Ev.inpOf]
+      · intro e he; rw [hmtr] at he
+        simp only [mtrDelta, hk, List.mem_append, List.mem_singleton] at he
+        rcases he with he | he
+        · exact lt e he
+        · subst he; exact hi
+      · intro p hp; rw [f1] at hp; exact pl p (List.mem_of_mem_eraseIdx hp)
+      · intro j hj
+        rw [hmtr, proj_append, List.filterMap_append, inps j hj, f2]
+        simp only [mtrDelta, hk]
+        by_cases hji : i = j
+        · subst hji; simp [proj_single_same, Ev.inpOf]
+        · simp [proj_single_ne j i _ hji]
+    | emit k =>
+      obtain ⟨t, ht, _, f1, f2, f3⟩ := Sw.frame_emit hcore
+      refine ⟨?_, by rw [hmtr]; simpa [mtrDelta] using lt, by rw [f3]; exact pl,
+        fun j hj => by rw [hmtr, f1]; simpa [mtrDelta] using inps j hj⟩
+      rw [htr, List.filterMap_append, b0, f1, f2]; simp [trDelta, ht, Ev.inpOf]
+    | deliver =>
+      obtain ⟨f1, f2, f3, _⟩ := Sw.frame_deliver hcore
+      exact ⟨by rw [htr, f1, f2]; simpa [trDelta] using b0, by rw [hmtr]; simpa [mtrDelta] using lt,
+        by rw [f3]; exact pl, fun j hj => by rw [hmtr, f1]; simpa [mtrDelta] using inps j hj⟩
+
+def Hyp (ms : List (Val → List Val)) (nn : Nat) (s : State) : Prop :=
+  DistinctIn s.tr ∧ ∀ i, i < nn → Sat (ms.getD i (fun _ => [])) (proj i s.mtr)
+
+theorem hyp_prefix (ms : List (Val → List Val)) (nn : Nat) (sel : Val → Nat) (s s' : State) (a : Act)
+    (hs : step nn sel s a = some s') (h : Hyp ms nn s') : Hyp ms nn s := by
+  obtain ⟨htr, hmtr, _⟩ := step_spec nn sel s s' a hs
+  refine ⟨distinct_prefix (htr ▸ h.1), fun i hi => ?_⟩
+  have := h.2 i hi
+  rw [hmtr, proj_append] at this
+  exact this.prefix _ _ rfl
+
+structure C (ms : List (Val → List Val)) (sel : Val → Nat) (s : State) : Prop where
+  reach : ∃ as', Core.run (Sw.step ms sel) Sw.init as' = some s.core
+  b2 : s.tr.filterMap Ev.outOf = s.core.sentG.map gmsg
+  l1 : ∀ i u x, (i, Ev.inp (u, x)) ∈ s.mtr → (∃ y, (i, Ev.out (u, y)) ∈ s.mtr) ∨ (i, (u, x)) ∈ s.core.pend
+  l2 : ∀ p ∈ s.core.pend, (p.1, Ev.inp p.2) ∈ s.mtr
+  sat : Sat (souts ms sel) s.tr
+
+theorem extend_reach {ms : List (Val → List Val)} {sel : Val → Nat} {c c' : Sw.State} {a : Sw.Act}
+    (h : ∃ as', Core.run (Sw.step ms sel) Sw.init as' = some c) (hs : Sw.step ms sel c a = some c') :
+    ∃ as', Core.run (Sw.step ms sel) Sw.init as' = some c' := by
+  obtain ⟨as', h⟩ := h
+  exact ⟨as' ++ [a], by rw [Core.run_append, h]; simp [Core.run_cons, hs]⟩
+
+theorem c_init (ms : List (Val → List Val)) (sel : Val → Nat) : C ms sel init :=
+  ⟨⟨[], rfl⟩, by simp [init, Sw.init], by simp [init], by simp [init, Sw.init], by simp [init]; exact Sat.nil⟩
+
+theorem mem_inp_recv {nn : Nat} {sel : Val → Nat} {s : State} (hu : U nn sel s) {i u : Nat} {x : Val}
+    (h : (i, Ev.inp (u, x)) ∈ s.mtr) : (u, x) ∈ s.core.recv := by
+  have hi := hu.lt _ h
+  have : (u, x) ∈ (proj i s.mtr).filterMap Ev.inpOf := mem_filterMap_inpOf.mpr ((mem_proj i _ _).mpr h)
+  rw [hu.inps i hi] at this
+  exact (List.mem_filter.mp this).1
+
+theorem c_step (ms : List (Val → List Val)) (nn : Nat) (sel : Val → Nat) (hms : ms.length = nn)
+    (s s' : State) (a : Act) (hu : U nn sel s) (hc : C ms sel s) (hs : step nn sel s a = some s')
+    (hh : Hyp ms nn s') : C ms sel s' := by
+  have hh0 := hyp_prefix ms nn sel s s' a hs hh
+  obtain ⟨htr, hmtr, hcore⟩ := step_spec nn sel s s' a hs
+  obtain ⟨hreach, b2, l1, l2, hsat⟩ := hc
+  have hnd : (s.core.recv.map (·.1)).Nodup := WkL.nodup_recv_of_distinct hu.b0 hh0.1
+  have hlen : ms.length = (anyMs nn Val.nil).length := by rw [anyMs_length, hms]
+  cases a with
+  | junk i m =>
+    exfalso
+    obtain ⟨hi, hg, _⟩ := hcore
+    have h1 := hh.2 i hi
+    rw [hmtr, proj_append] at h1
+    simp only [mtrDelta, proj_single_same] at h1
+    obtain ⟨u, y⟩ := m
+    obtain ⟨_, x', q1, _, q3⟩ := h1.snoc_out_inv
+    rcases l1 i u x' ((mem_proj i _ _).mp q1) with ⟨y', h2⟩ | h2
+    · exact q3 y' ((mem_proj i _ _).mpr h2)
+    · exact hg _ h2 ⟨rfl, rfl⟩
+  | node a' =>
+    cases a' with
+    | arrive m =>
+      have hstrict : Sw.step ms sel s.core (.arrive m) = some s'.core := by
+        rw [Sw.step_ms_irrel ms (anyMs nn .nil) sel _ _ hlen (by intro k y h; cases h)]; exact hcore
+      obtain ⟨_, _, f3, f4⟩ := Sw.frame_arrive hcore
+      refine ⟨extend_reach hreach hstrict, ?_, ?_, ?_, ?_⟩
+      · rw [htr, List.filterMap_append, b2, f4]; simp [trDelta, Ev.outOf]
+      · intro i u x h; rw [hmtr] at h ⊢; rw [f3]; simpa [mtrDelta] using l1 i u x (by simpa [mtrDelta] using h)
+      · intro p hp; rw [f3] at hp; rw [hmtr]; simpa [mtrDelta] using l2 p hp
+      · rw [htr]; exact Sat.inp _ m hsat
+    | enq =>
+      have hstrict : Sw.step ms sel s.core .enq = some s'.core := by
+        rw [Sw.step_ms_irrel ms (anyMs nn .nil) sel _ _ hlen (by intro k y h; cases h)]; exact hcore
+      obtain ⟨u, x, rest, hq, _, _, f3, _, f4⟩ := Sw.frame_enq hcore
+      refine ⟨extend_reach hreach hstrict, ?_, ?_, ?_, ?_⟩
+      · rw [htr, f3]; simpa [trDelta] using b2
+      · intro i u' x' h
+        rw [hmtr] at h ⊢; rw [f4]
+        simp only [mtrDelta, hq, List.mem_append] at h ⊢
+        rcases h with h | h
+        · rcases l1 i u' x' h with ⟨y, h1⟩ | h1
+          · exact Or.inl ⟨y, Or.inl h1⟩
+          · exact Or.inr (Or.inl h1)
+        · right; right
+          by_cases hx : x.isExc = true
+          · simp [hx] at h
+          · rw [if_neg hx] at h ⊢
+            simp only [List.mem_singleton] at h ⊢
+            cases h; rfl
+      · intro p hp
+        rw [f4] at hp; rw [hmtr]
+        simp only [mtrDelta, hq, List.mem_append] at hp ⊢
+        rcases hp with hp | hp
+        · exact Or.inl (l2 p hp)
+        · right
+          by_cases hx : x.isExc = true
+          · simp [hx] at hp
+          · rw [if_neg hx] at hp ⊢
+            simp only [List.mem_singleton] at hp ⊢
+            subst hp; rfl
+      · rw [htr]; simpa [trDelta] using hsat
+    | memberOut k y =>
+      obtain ⟨i, u, x, hk, f1, f2, _, f4⟩ := Sw.frame_memberOut hcore
+      have hi := hu.pl _ (List.mem_of_getElem? hk)
+      have h1 := hh.2 i hi
+      rw [hmtr, proj_append] at h1
+      simp only [mtrDelta, hk, proj_single_same] at h1
+      obtain ⟨_, x', q1, q2, q3⟩ := h1.snoc_out_inv
+      have hx : x' = x := by
+        have r1 := mem_inp_recv hu ((mem_proj i _ _).mp q1)
+        have r2 := mem_inp_recv hu (l2 _ (List.mem_of_getElem? hk))
+        exact fst_unique hnd r1 r2
+      subst hx
+      have hstrict : Sw.step ms sel s.core (.memberOut k y) = some s'.core := by
+        rw [Sw.step_memberOut_eq ms nn sel s.core k i u x' y hk hi q2]; exact hcore
+      have hreach' := extend_reach hreach hstrict
+      refine ⟨hreach', ?_, ?_, ?_, ?_⟩
+      · rw [htr, List.filterMap_append, b2, f4]; simp [trDelta, hk, Ev.outOf, gmsg]
+      · intro j u' x'' h
+        rw [hmtr] at h ⊢; rw [f1]
+        simp only [mtrDelta, hk, List.mem_append, List.mem_singleton] at h ⊢
+        rcases h with h | h
+        · rcases l1 j u' x'' h with ⟨y', h2⟩ | h2
+          · exact Or.inl ⟨y', Or.inl h2⟩
+          · by_cases he : (j, (u', x'')) = (i, (u, x'))
+            · cases he; exact Or.inl ⟨y, Or.inr rfl⟩
+            · right
+              obtain ⟨n, hn⟩ := List.getElem?_of_mem h2
+              exact List.mem_eraseIdx_iff_getElem?.mpr ⟨n, by
+                intro hnk; subst hnk; rw [hk] at hn; exact he (Option.some.inj hn).symm, hn⟩
+        · cases h
+      · intro p hp; rw [f1] at hp; rw [hmtr]
+        exact List.mem_append_left _ (l2 p (List.mem_of_mem_eraseIdx hp))
+      · obtain ⟨as'', hr''⟩ := hreach'
+        have hcon := (Sw.contract ms sel as'' s'.core hr'').1
+        rw [f4, f2] at hcon
+        rw [htr]; simp only [trDelta, hk]
+        exact sat_emit_step (t := (u, x', y)) hsat hu.b0 b2 hcon hnd
+    | emit k =>
+      have hstrict : Sw.step ms sel s.core (.emit k) = some s'.core := by
+        rw [Sw.step_ms_irrel ms (anyMs nn .nil) sel _ _ hlen (by intro k y h; cases h)]; exact hcore
+      obtain ⟨t, ht, f0, f1, _, f3⟩ := Sw.frame_emit hcore
+      have hreach' := extend_reach hreach hstrict
+      refine ⟨hreach', ?_, ?_, ?_, ?_⟩
+      · rw [htr, List.filterMap_append, b2, f0]; simp [trDelta, ht, Ev.outOf]
+      · intro i u x h; rw [hmtr] at h ⊢; rw [f3]; simpa [mtrDelta] using l1 i u x (by simpa [mtrDelta] using h)
+      · intro p hp; rw [f3] at hp; rw [hmtr]; simpa [mtrDelta] using l2 p hp
+      · obtain ⟨as'', hr''⟩ := hreach'
+        have hcon := (Sw.contract ms sel as'' s'.core hr'').1
+        rw [f0, f1] at hcon
+        rw [htr]; simp only [trDelta, ht]
+        exact sat_emit_step hsat hu.b0 b2 hcon hnd
+    | deliver =>
+      have hstrict : Sw.step ms sel s.core .deliver = some s'.core := by
+        rw [Sw.step_ms_irrel ms (anyMs nn .nil) sel _ _ hlen (by intro k y h; cases h)]; exact hcore
+      obtain ⟨_, _, f3, f4⟩ := Sw.frame_deliver hcore
+      refine ⟨extend_reach hreach hstrict, by rw [htr, f4]; simpa [trDelta] using b2, ?_, ?_,
+        by rw [htr]; simpa [trDelta] using hsat⟩
+      · intro i u x h; rw [hmtr] at h ⊢; rw [f3]; simpa [mtrDelta] using l1 i u x (by simpa [mtrDelta] using h)
+      · intro p hp; rw [f3] at hp; rw [hmtr]; simpa [mtrDelta] using l2 p hp
+
+/-- **switch case of the lifting** -/
+theorem lift (ms : List (Val → List Val)) (nn : Nat) (sel : Val → Nat) (hms : ms.length = nn)
+    (as : List Act) (s : State) (hr : Core.run (step nn sel) init as = some s) :
+    U nn sel s ∧ (Hyp ms nn s → C ms sel s) := by
+  refine Core.invariant_run (Inv := fun s => U nn sel s ∧ (Hyp ms nn s → C ms sel s)) ?_ as init s
+    ⟨u_init nn sel, fun _ => c_init ms sel⟩ hr
+  intro s a s' ⟨hu, hc⟩ hs
+  refine ⟨u_step nn sel s s' a hu hs, fun hh => ?_⟩
+  exact c_step ms nn sel hms s s' a hu (hc (hyp_prefix ms nn sel s s' a hs hh)) hs hh
+
+theorem member_distinct (nn : Nat) (sel : Val → Nat) (s : State) (hu : U nn sel s) (hd : DistinctIn s.tr)
+    (i : Nat) (hi : i < nn) : DistinctIn (proj i s.mtr) := by
+  unfold DistinctIn
+  rw [hu.inps i hi]
+  have hnd := WkL.nodup_recv_of_distinct hu.b0 hd
+  exact List.Nodup.sublist (List.Sublist.map _ List.filter_sublist) hnd
+
+end SwL
+/-! ## sequences -/
+
+theorem pA_append (a b : List Ev3) : pA (a ++ b) = pA a ++ pA b := by
+  induction a with
+  | nil => rfl
+  | cons e a ih => cases e <;> simp [pA, ih]
+
+theorem pB_append (a b : List Ev3) : pB (a ++ b) = pB a ++ pB b := by
+  induction a with
+  | nil => rfl
+  | cons e a ih => cases e <;> simp [pB, ih]
+
+theorem pE_append (a b : List Ev3) : pE (a ++ b) = pE a ++ pE b := by
+  induction a with
+  | nil => rfl
+  | cons e a ih => cases e <;> simp [pE, ih]
+
+theorem mem_pA_inp (τ : List Ev3) (m : Msg) : Ev.inp m ∈ pA τ ↔ Ev3.extIn m ∈ τ := by
+  induction τ with
+  | nil => simp [pA]
+  | cons e τ ih => cases e <;> simp [pA, ih]
+
+theorem mem_pA_out (τ : List Ev3) (m : Msg) : Ev.out m ∈ pA τ ↔ Ev3.mid m ∈ τ := by
+  induction τ with
+  | nil => simp [pA]
+  | cons e τ ih => cases e <;> simp [pA, ih]
+
+theorem mem_pB_inp (τ : List Ev3) (m : Msg) : Ev.inp m ∈ pB τ ↔ Ev3.mid m ∈ τ := by
+  induction τ with
+  | nil => simp [pB]
+  | cons e τ ih => cases e <;> simp [pB, ih]
+
+theorem mem_pB_out (τ : List Ev3) (m : Msg) : Ev.out m ∈ pB τ ↔ Ev3.extOut m ∈ τ := by
+  induction τ with
+  | nil => simp [pB]
+  | cons e τ ih => cases e <;> simp [pB, ih]
+
+theorem mem_pE_inp (τ : List Ev3) (m : Msg) : Ev.inp m ∈ pE τ ↔ Ev3.extIn m ∈ τ := by
+  induction τ with
+  | nil => simp [pE]
+  | cons e τ ih => cases e <;> simp [pE, ih]
+
+theorem mem_pE_out (τ : List Ev3) (m : Msg) : Ev.out m ∈ pE τ ↔ Ev3.extOut m ∈ τ := by
+  induction τ with
+  | nil => simp [pE]
+  | cons e τ ih => cases e <;> simp [pE, ih]
+
+@[simp] theorem inpOf_inp (m : Msg) : (Ev.inp m).inpOf = some m := rfl
+@[simp] theorem inpOf_out (m : Msg) : (Ev.out m).inpOf = none := rfl
+@[simp] theorem outOf_inp (m : Msg) : (Ev.inp m).outOf = none := rfl
+@[simp] theorem outOf_out (m : Msg) : (Ev.out m).outOf = some m := rfl
+
+theorem inps_pA_eq_pE (τ : List Ev3) : (pA τ).filterMap Ev.inpOf = (pE τ).filterMap Ev.inpOf := by
+  induction τ with
+  | nil => rfl
+  | cons e τ ih => cases e <;> simp [pA, pE, List.filterMap_cons, ih]
+
+theorem inps_pB_eq_outs_pA (τ : List Ev3) : (pB τ).filterMap Ev.inpOf = (pA τ).filterMap Ev.outOf := by
+  induction τ with
+  | nil => rfl
+  | cons e τ ih => cases e <;> simp [pA, pB, List.filterMap_cons, ih]
+
+/-- **sequence case of the lifting**: the first stage's and the rest's trace contracts compose -/
+theorem seq_sat (oA oB : Val → List Val) : ∀ (n : Nat) (τ : List Ev3), τ.length = n →
+    Sat oA (pA τ) → Sat oB (pB τ) → Sat (fun x => (oA x).flatMap oB) (pE τ) := by
+  intro n
+  induction n with
+  | zero =>
+    intro τ hl _ _
+    have : τ = [] := List.eq_nil_of_length_eq_zero hl
+    subst this; exact Sat.nil
+  | succ n ih =>
+    intro τ hl hA hB
+    rcases List.eq_nil_or_concat τ with hτ | ⟨τ', e, hτ⟩
+    · subst hτ; simp at hl
+    · subst hτ
+      rw [List.concat_eq_append] at hl hA hB ⊢
+      have hl' : τ'.length = n := by simpa using hl
+      rw [pA_append] at hA; rw [pB_append] at hB; rw [pE_append]
+      cases e with
+      | extIn m =>
+        simp only [pA, pB, pE, List.append_nil] at hA hB ⊢
+        exact Sat.inp _ m (ih τ' hl' hA.snoc_inp_inv hB)
+      | mid m =>
+        simp only [pA, pB, pE, List.append_nil] at hA hB ⊢
+        obtain ⟨u, y⟩ := m
+        exact ih τ' hl' hA.snoc_out_inv.1 hB.snoc_inp_inv
+      | extOut m =>
+        simp only [pA, pB, pE, List.append_nil] at hA hB ⊢
+        obtain ⟨u, z⟩ := m
+        obtain ⟨hB', y, q1, q2, q3⟩ := hB.snoc_out_inv
+        have hE := ih τ' hl' hA hB'
+        have hmid : Ev.out (u, y) ∈ pA τ' := (mem_pA_out τ' _).mpr ((mem_pB_inp τ' _).mp q1)
+        obtain ⟨x, r1, r2⟩ := hA.out_mem u y hmid
+        refine Sat.out _ u x z hE ((mem_pE_inp τ' _).mpr ((mem_pA_inp τ' _).mp r1))
+          (List.mem_flatMap.mpr ⟨y, r2, q2⟩) ?_
+        intro y' hy'
+        exact q3 y' ((mem_pB_out τ' _).mpr ((mem_pE_out τ' _).mp hy'))
+
+theorem seq_distinct (oA : Val → List Val) (τ : List Ev3) (hA : Sat oA (pA τ)) (hd : DistinctIn (pE τ)) :
+    DistinctIn (pA τ) ∧ DistinctIn (pB τ) := by
+  unfold DistinctIn at *
+  refine ⟨by rw [inps_pA_eq_pE]; exact hd, ?_⟩
+  rw [inps_pB_eq_outs_pA]; exact hA.out_unique
+
+/-! ## the whole tree -/
+
+mutual
+/-- well-formed trees: every batched worker's `berrs` covers what its batched `call` may raise;
+    an ensemble has at least one member (the code asserts more than one) -/
+def WF : Tree → Prop
+  | .worker w => Wk.BerrsOk w
+  | .seq ts => WFs ts
+  | .ens ts _ => 0 < ts.length ∧ WFs ts
+  | .switch ts _ => WFs ts
+def WFs : List Tree → Prop
+  | [] => True
+  | t :: ts => WF t ∧ WFs ts
+end
+
+theorem flatMap_pure {α : Type} (l : List α) : l.flatMap (fun y => [y]) = l := by
+  induction l with
+  | nil => rfl
+  | cons a l ih => simp [List.flatMap_cons, ih]
+
+mutual
+/-- **Whole-tree theorem.**  Every boundary trace of a concrete servlet tree — every node
+    operational, every interleaving, members constrained only by being behaviours of the member
+    subtrees — whose input uids are pairwise distinct satisfies the trace contract for the
+    denotation `outs t`: each message put on the tree's output queue is `(u, y)` for an earlier input
+    `(u, x)` with `y ∈ outs t x`, and no uid is answered twice. -/
+theorem tree_sat : (t : Tree) → WF t → ∀ σ, Tr t σ → DistinctIn σ → Sat (outs t) σ
+  | .worker w, hw, σ, htr, hd => by
+    simp only [Tr] at htr
+    obtain ⟨as, s, hr, rfl⟩ := htr
+    exact Sat.congr (fun x => by simp [outs]) (WkL.sat w hw as s hr hd)
+  | .seq ts, hw, σ, htr, hd => by
+    simp only [Tr] at htr
+    exact Sat.congr (fun x => by simp [outs]) (seqs_sat ts hw σ htr hd)
+  | .ens ts ff, hw, σ, htr, hd => by
+    simp only [Tr] at htr
+    obtain ⟨as, s, hr, rfl, hall⟩ := htr
+    obtain ⟨hu, hc⟩ := EnsL.lift (ts.map outs) ts.length ff (by simp) hw.1 as s hr
+    have hyp : EnsL.Hyp (ts.map outs) ts.length s := by
+      refine ⟨hd, fun i hi => ?_⟩
+      have := all_sat ts hw.2 0 s.mtr hall
+        (fun j hj => by rw [Nat.zero_add]; exact EnsL.member_distinct ts.length s hu hd j hj) i hi
+      rwa [Nat.zero_add] at this
+    exact Sat.congr (fun x => by simp [outs, eouts, outsEach_eq]) (hc hyp).sat
+  | .switch ts sel, hw, σ, htr, hd => by
+    simp only [Tr] at htr
+    obtain ⟨as, s, hr, rfl, hall⟩ := htr
+    obtain ⟨hu, hc⟩ := SwL.lift (ts.map outs) ts.length sel (by simp) as s hr
+    have hyp : SwL.Hyp (ts.map outs) ts.length s := by
+      refine ⟨hd, fun i hi => ?_⟩
+      have := all_sat ts hw 0 s.mtr hall
+        (fun j hj => by rw [Nat.zero_add]; exact SwL.member_distinct ts.length sel s hu hd j hj) i hi
+      rwa [Nat.zero_add] at this
+    exact Sat.congr (fun x => by simp [outs, souts, outsNth_eq]) (hc hyp).sat
+/-- members: the trace each member saw satisfies that member's contract -/
+theorem all_sat : (ts : List Tree) → WFs ts → ∀ (k : Nat) (mtr : List (Nat × Ev)), TrAll ts k mtr →
+    (∀ i, i < ts.length → DistinctIn (proj (k + i) mtr)) →
+    ∀ i, i < ts.length → Sat ((ts.map outs).getD i (fun _ => [])) (proj (k + i) mtr)
+  | [], _, _, _, _, _ => fun i hi => absurd hi (by simp)
+  | t :: ts, hw, k, mtr, hall, hd => fun i hi => by
+    simp only [TrAll] at hall
+    cases i with
+    | zero =>
+      simp only [List.map_cons, List.getD_cons_zero, Nat.add_zero]
+      exact tree_sat t hw.1 _ hall.1 (by simpa using hd 0 (by simp))
+    | succ i =>
+      have hi' : i < ts.length := by simpa using hi
+      have := all_sat ts hw.2 (k + 1) mtr hall.2
+        (fun j hj => by
+          have := hd (j + 1) (by simpa using hj)
+          rwa [show k + (j + 1) = k + 1 + j by omega] at this) i hi'
+      simp only [List.map_cons, List.getD_cons_succ]
+      rwa [show k + 1 + i = k + (i + 1) by omega] at this
+/-- sequences -/
+theorem seqs_sat : (ts : List Tree) → WFs ts → ∀ σ, TrSeq ts σ → DistinctIn σ → Sat (outsSeq ts) σ
+  | [], _, _, htr, _ => by simp [TrSeq] at htr
+  | [t], hw, σ, htr, hd => by
+    simp only [TrSeq] at htr
+    exact Sat.congr (fun x => by simp [outsSeq, flatMap_pure]) (tree_sat t hw.1 σ htr hd)
+  | t :: t' :: ts, hw, σ, htr, hd => by
+    simp only [TrSeq] at htr
+    obtain ⟨τ, hA, hB, rfl⟩ := htr
+    have hdA : DistinctIn (pA τ) := by
+      unfold DistinctIn at hd ⊢; rw [inps_pA_eq_pE]; exact hd
+    have sA := tree_sat t hw.1 (pA τ) hA hdA
+    have hdB := (seq_distinct (outs t) τ sA hd).2
+    have sB := seqs_sat (t' :: ts) hw.2 (pB τ) hB hdB
+    exact Sat.congr (fun x => by simp [outsSeq]) (seq_sat (outs t) (outsSeq (t' :: ts)) τ.length τ rfl sA sB)
+end
+
 end Servlet
